@@ -38,6 +38,124 @@ fn run_reads(rq: &mut Request, plan: &ReadPlan, d: &mut Delivered) {
                 let _ = rq.as_reader();
             }
         }
+        ReadPlan::Std { how } => {
+            let want = d.body_length;
+            match how % 6 {
+                0 => {
+                    let mut v = vec![];
+                    match rq.as_reader().read_to_end(&mut v) {
+                        Ok(n) => {
+                            d.reads.push(ReadObs { buf: n.max(1), res: Ok(n) });
+                            d.reads.push(ReadObs { buf: 1, res: Ok(0) });
+                            d.body.extend_from_slice(&v);
+                        }
+                        Err(e) => d.reads.push(ReadObs { buf: 0, res: Err(format!("{:?}: {}", e.kind(), e)) }),
+                    }
+                }
+                1 => {
+                    // the body pattern is not UTF-8: the data is consumed to the end all the same
+                    let mut s = String::new();
+                    match rq.as_reader().read_to_string(&mut s) {
+                        Ok(n) => {
+                            d.reads.push(ReadObs { buf: n.max(1), res: Ok(n) });
+                            d.reads.push(ReadObs { buf: 1, res: Ok(0) });
+                            d.body.extend_from_slice(s.as_bytes());
+                        }
+                        Err(e) if e.kind() == std::io::ErrorKind::InvalidData => d.opaque_read = true,
+                        Err(e) => d.reads.push(ReadObs { buf: 0, res: Err(format!("{:?}: {}", e.kind(), e)) }),
+                    }
+                }
+                2 => {
+                    let mut v: Vec<u8> = vec![];
+                    match std::io::copy(rq.as_reader(), &mut v) {
+                        Ok(n) => {
+                            d.reads.push(ReadObs { buf: (n as usize).max(1), res: Ok(n as usize) });
+                            d.reads.push(ReadObs { buf: 1, res: Ok(0) });
+                            d.body.extend_from_slice(&v);
+                        }
+                        Err(e) => d.reads.push(ReadObs { buf: 0, res: Err(format!("{:?}: {}", e.kind(), e)) }),
+                    }
+                }
+                3 => {
+                    let mut v = vec![];
+                    let mut failed = None;
+                    for b in rq.as_reader().bytes() {
+                        match b {
+                            Ok(b) => v.push(b),
+                            Err(e) => {
+                                failed = Some(format!("{:?}: {}", e.kind(), e));
+                                break;
+                            }
+                        }
+                    }
+                    d.reads.push(ReadObs { buf: v.len().max(1), res: Ok(v.len()) });
+                    match failed {
+                        Some(e) => d.reads.push(ReadObs { buf: 1, res: Err(e) }),
+                        None => d.reads.push(ReadObs { buf: 1, res: Ok(0) }),
+                    }
+                    d.body.extend_from_slice(&v);
+                }
+                4 => {
+                    // read_exact of the declared length (when there is one), then look for EOF
+                    let n = want.unwrap_or(0);
+                    let mut v = vec![0u8; n];
+                    match rq.as_reader().read_exact(&mut v) {
+                        Ok(()) => {
+                            if n > 0 {
+                                d.reads.push(ReadObs { buf: n, res: Ok(n) });
+                            }
+                            d.body.extend_from_slice(&v);
+                            let mut b = [0u8; 512];
+                            loop {
+                                match rq.as_reader().read(&mut b) {
+                                    Ok(0) => {
+                                        d.reads.push(ReadObs { buf: 512, res: Ok(0) });
+                                        break;
+                                    }
+                                    Ok(k) => {
+                                        d.body.extend_from_slice(&b[..k]);
+                                        d.reads.push(ReadObs { buf: 512, res: Ok(k) });
+                                    }
+                                    Err(e) => {
+                                        d.reads.push(ReadObs { buf: 512, res: Err(format!("{:?}: {}", e.kind(), e)) });
+                                        break;
+                                    }
+                                }
+                            }
+                        }
+                        Err(e) => d.reads.push(ReadObs { buf: n, res: Err(format!("{:?}: {}", e.kind(), e)) }),
+                    }
+                }
+                _ => {
+                    let mut a = [0u8; 300];
+                    let mut b = [0u8; 700];
+                    loop {
+                        let r = {
+                            let mut bufs = [std::io::IoSliceMut::new(&mut a), std::io::IoSliceMut::new(&mut b)];
+                            rq.as_reader().read_vectored(&mut bufs)
+                        };
+                        match r {
+                            Ok(0) => {
+                                d.reads.push(ReadObs { buf: 1000, res: Ok(0) });
+                                break;
+                            }
+                            Ok(k) => {
+                                let k1 = k.min(300);
+                                d.body.extend_from_slice(&a[..k1]);
+                                if k > 300 {
+                                    d.body.extend_from_slice(&b[..(k - 300).min(700)]);
+                                }
+                                d.reads.push(ReadObs { buf: 1000, res: Ok(k) });
+                            }
+                            Err(e) => {
+                                d.reads.push(ReadObs { buf: 1000, res: Err(format!("{:?}: {}", e.kind(), e)) });
+                                break;
+                            }
+                        }
+                    }
+                }
+            }
+        }
         ReadPlan::Sizes(sizes) => {
             for &s in sizes {
                 let mut buf = vec![0u8; s];
